@@ -65,6 +65,7 @@ fn main() {
         "debug-rich" => rig::props::c07::debug_rich(),
         "C09" => rig::props::c09::main(tier, replay),
         "C10" => rig::props::c10::main(tier, replay),
+        "C18" => rig::props::c18::main(tier, replay),
         "selftest" => rig::props::c03::selftest(),
         _ => {
             eprintln!("unknown property {}", prop);
